@@ -358,6 +358,9 @@ type appPFD struct {
 func (w *world) pfd(a int, apps []appPFD, bad bool) sysh.Obs {
 	p := w.peers[a]
 	seq := w.seq(p)
+	if len(apps) == 0 {
+		bad = false // there is no PFD context to spoil: the request without any Application ID's PFDs IE is well-formed
+	}
 	var ies []*ie.IE
 	for i, ap := range apps {
 		var ctx []*ie.IE
